@@ -720,3 +720,73 @@ def self_test():  # noqa: F811
     t = ast.parse(POSITIVE_EXAMPLES['yield_then_mutate']).body[0]
     ok['yield_then_mutate'] = bool(yield_then_mutate(t))
     return ok
+
+
+def stale_system_after_model_rebind(fnode, model_name='model'):
+    """[(var, def node, rebind node, use node)]: `var` is the ODE system (or statements) read from `model`; `model` is then
+    re-bound to a model with new statements; afterwards a builder is created from the old `var`
+    (CompartmentalSystemBuilder(var)): the changes made in between are thrown away / the old structure is re-created."""
+    cfg = CFG(fnode)
+    srcs = ('get_and_check_odes', 'ode_system', 'get_odes')
+    defs = {}
+    for n in cfg.nodes.values():
+        if n.kind == 'stmt' and isinstance(n.ast, ast.Assign) and len(n.ast.targets) == 1 and isinstance(n.ast.targets[0], ast.Name):
+            v = n.ast.value
+            txt = unparse(v)
+            if model_name in _names(v) and any(s_ in txt for s_ in srcs) and not isinstance(v, ast.IfExp):
+                defs.setdefault(n.ast.targets[0].id, []).append(n)
+    if not defs:
+        return []
+    # names bound to statements that contain a newly built system
+    newsys = {n.targets[0].id for n in walk_no_nested(fnode) if isinstance(n, ast.Assign) and len(n.targets) == 1
+              and isinstance(n.targets[0], ast.Name) and n.targets[0].id != model_name
+              and 'CompartmentalSystem(' in unparse(n.value)}
+    rebinds = [n for n in cfg.nodes.values() if n.kind == 'stmt' and isinstance(n.ast, ast.Assign)
+               and any(isinstance(t, ast.Name) and t.id == model_name for t in n.ast.targets)
+               and isinstance(n.ast.value, ast.Call)
+               and any(k.arg == 'statements' and ('CompartmentalSystem(' in unparse(k.value) or _names(k.value) & newsys)
+                       for c in ast.walk(n.ast.value) if isinstance(c, ast.Call) for k in c.keywords)]
+    out = []
+    for var, dnodes in defs.items():
+        kills = {d.id for d in dnodes}
+        uses = [n for n in cfg.nodes.values() if n.ast is not None and n.kind in ('stmt', 'test', 'return')
+                and any(isinstance(c, ast.Call) and (dotted(c.func) or '').endswith('CompartmentalSystemBuilder') and c.args
+                        and isinstance(c.args[0], ast.Name) and c.args[0].id == var for c in ast.walk(n.ast))]
+        for d in dnodes:
+            for r in rebinds:
+                if r.id not in cfg.reachable(d.id, avoid=kills - {d.id}):
+                    continue
+                after = set()
+                for s_ in cfg.g.successors(r.id):
+                    if s_ not in kills:
+                        after |= cfg.reachable(s_, avoid=kills)
+                for u in uses:
+                    if u.id in after:
+                        out.append((var, d, r, u))
+    seen, res = set(), []
+    for t in out:
+        k = (t[0], t[3].id)
+        if k not in seen:
+            seen.add(k)
+            res.append(t)
+    return res
+
+
+POSITIVE_EXAMPLES['stale_system_after_model_rebind'] = """
+def f(model):
+    cs = get_and_check_odes(model)
+    if cs.find_depot(model.statements):
+        cb = CompartmentalSystemBuilder(cs)
+        model = model.replace(statements=model.statements.before_odes + CompartmentalSystem(cb))
+    if has_zero_order_absorption(model):
+        cb = CompartmentalSystemBuilder(cs)
+    return model
+"""
+_self_test_base6 = self_test
+
+
+def self_test():  # noqa: F811
+    ok = _self_test_base6()
+    t = ast.parse(POSITIVE_EXAMPLES['stale_system_after_model_rebind']).body[0]
+    ok['stale_system_after_model_rebind'] = bool(stale_system_after_model_rebind(t))
+    return ok
